@@ -314,7 +314,7 @@ package spine
 //@   ensures[C14] rejected-silent: result != nil ==> spawnn == old(spawnn) && evn == old(evn)
 //@   ensures[C14] rejected-keeps-registration: result != nil ==> forall k model.MsgCounterType :: has(r.responseMsgCallback, k) == old(has(r.responseMsgCallback, k)) && r.responseMsgCallback[k] == old(r.responseMsgCallback[k])
 //@   define HE = methodid("(github.com/enbility/spine-go/api.EventHandlerInterface).HandleEvent")
-//@   ensures[C14] accepted-fires: result == nil ==> spawnn - len(CBS) >= old(spawnn) && forall d int :: spawnn - len(CBS) <= d && d < spawnn ==> spawnfn[d] == old(CBS[d - (spawnn - len(CBS))]) && spawnarg(d, 0, api.ResponseMessage).MsgCounterReference == old(*REF) && spawnarg(d, 0, api.ResponseMessage).FeatureRemote == old(message.FeatureRemote) && spawnarg(d, 0, api.ResponseMessage).Data == cmdValue(old(message.Cmd))
+//@   ensures[C14] accepted-fires: result == nil ==> spawnn - len(CBS) >= old(spawnn) && at(processResponseMsgCallbacks, spawnn) == spawnn - len(CBS) && forall d int :: spawnn - len(CBS) <= d && d < spawnn ==> spawnfn[d] == old(CBS[d - at(processResponseMsgCallbacks, spawnn)]) && spawnarg(d, 0, api.ResponseMessage).MsgCounterReference == old(*REF) && spawnarg(d, 0, api.ResponseMessage).FeatureRemote == old(message.FeatureRemote) && spawnarg(d, 0, api.ResponseMessage).Data == cmdValue(old(message.Cmd))
 //@   ensures[C14] accepted-only: result == nil ==> forall d int :: old(spawnn) <= d && d < spawnn - len(CBS) ==> spawnfn[d] == HE
 //@   ensures[C14] accepted-event: result == nil ==> evn == old(evn) + 1 && ev[old(evn)].EventType == api.EventTypeDataChange && ev[old(evn)].Feature == old(message.FeatureRemote) && ev[old(evn)].Function == cmdFct(old(message.Cmd)) && ev[old(evn)].Data == cmdValue(old(message.Cmd))
 //@   modifies map(gomap[model.MsgCounterType][]func(api.ResponseMessage)), held, @PUBLISH
